@@ -23,6 +23,11 @@ struct MType {
     // default forms load<V>(p), store(p, v) ... (N defaults to width)
     void (*load_def)(const void* p, void* reg);
     void (*store_def)(void* p, const void* reg);
+    // aligned_load<V>(p), aligned_store(p, v), gather<V>(p, idx), scatter(p, v, idx): the overloads without a count
+    void (*aligned_load_def)(const void* p, void* reg);
+    void (*aligned_store_def)(void* p, const void* reg);
+    void (*gather_def)(const void* p, const void* idx, void* reg);
+    void (*scatter_def)(void* p, const void* reg, const void* idx);
     void (*from_array)(const void* arr, void* reg);
     void (*to_array)(const void* reg, void* arr);
     void (*const* extract)(const void* reg, void* scalar);            // indexed by I in 0..width-1
